@@ -2,7 +2,12 @@
 
 package uasc
 
-import "sync/atomic"
+import (
+	"sync/atomic"
+	"time"
+
+	"github.com/gopcua/opcua/uapolicy"
+)
 
 // VerifHook, when set, is called at the named points of the secure channel
 // (only in builds with -tags verif). The hook may block: it doubles as a
@@ -106,3 +111,23 @@ func verifSeqOff(m *Message) int {
 	}
 	return 16
 }
+
+// VerifInstanceAlgo returns the encryption algorithm (keys) of the channel
+// instance with the given token id, or nil. It lets the harness protect
+// chunks with the keys of a superseded token.
+func VerifInstanceAlgo(s *SecureChannel, channelID, tokenID uint32) *uapolicy.EncryptionAlgorithm {
+	s.instancesMu.Lock()
+	defer s.instancesMu.Unlock()
+	for _, i := range s.instances[channelID] {
+		if i.securityTokenID == tokenID {
+			return i.algo
+		}
+	}
+	if s.activeInstance != nil && s.activeInstance.securityTokenID == tokenID {
+		return s.activeInstance.algo
+	}
+	return nil
+}
+
+// VerifSetTime replaces the channel's clock (used for token creation timestamps).
+func VerifSetTime(s *SecureChannel, f func() time.Time) { s.time = f }
